@@ -252,7 +252,7 @@ def run_duplex(case: dict) -> list[str]:
     b_after = min(int(case.get("b_after", 0)), total_a)
     box: dict[str, Any] = {"stage": "handshake", "a_written": bytearray(), "b_written": bytearray(),
                            "a_received": bytearray(), "b_received": bytearray(), "pos_a": 0, "pos_b": 0, "errors": [],
-                           "done": []}
+                           "done": [], "inflight_a": 0, "inflight_b": 0, "left_behind": []}
 
     async def a_reader(tls) -> None:
         await env.pause(start.get("a1", 0))
@@ -287,13 +287,19 @@ def run_duplex(case: dict) -> list[str]:
             box["pos_a"] += n
             box["a_written"] += d               # plaintext order = order of the send_all calls (no await before the write loop)
             rec.op(f"call {t} send {core.hexs(d)}")
+            box["inflight_a"] += 1
             try:
                 await tls.send_all(d)
             except Exception as e:  # noqa: BLE001
                 rec.line(f"ret {t} raise {R.errname(e)}")
                 box["errors"].append(f"a-sender {R.errname(e)}")
                 return
+            finally:
+                box["inflight_a"] -= 1
             rec.line(f"ret {t} sent")
+            # a write call has returned: unless another write call of this side is in progress, the outgoing BIO is empty
+            if box["inflight_a"] == 0 and (tls._write_bio.pending or tls._data_deque):
+                box["left_behind"].append(f"a:{key}:{n}:pending={tls._write_bio.pending}:backlog={len(tls._data_deque)}")
         box["done"].append(key)
 
     async def b_reader(tls) -> None:
@@ -322,11 +328,16 @@ def run_duplex(case: dict) -> list[str]:
             d = src_b[box["pos_b"]:box["pos_b"] + n]
             box["pos_b"] += n
             box["b_written"] += d
+            box["inflight_b"] += 1
             try:
                 await tls.send_all(d)
             except Exception as e:  # noqa: BLE001
                 box["errors"].append(f"b-sender {R.errname(e)}")
                 return
+            finally:
+                box["inflight_b"] -= 1
+            if box["inflight_b"] == 0 and (tls._write_bio.pending or tls._data_deque):
+                box["left_behind"].append(f"b:{key}:{n}:pending={tls._write_bio.pending}:backlog={len(tls._data_deque)}")
         box["done"].append(key)
 
     async def main() -> None:
@@ -420,6 +431,8 @@ def run_duplex(case: dict) -> list[str]:
         lines.append(f"o.hs-error {box['hs_error']}")
     if box["errors"]:
         lines.append("o.task-error " + ",".join(box["errors"]).replace(" ", ":"))
+    if box["left_behind"]:
+        lines.append("o.left-behind " + ",".join(box["left_behind"]))
     if A is not None:
         aw, bw = bytes(box["a_written"]), bytes(box["b_written"])
         ar, br = bytes(box["a_received"]), bytes(box["b_received"])
